@@ -191,6 +191,8 @@ def check(ctx: Ctx) -> None:
     stock = BrownianStock(dt=0.25)
     stock.simulate(n_paths=1, time_horizon=1.0)
     ctx.selftest("a wrong expected number of time points is rejected", tuple(stock.spot.shape) != (1, 5 + 1))
+    from checks import suite_oracles
+    suite_oracles.suite(ctx, "grid")      # every derivative.simulate() of the repository's own tests against ceil(M/dt)+1
     ctx.traces_validated = len(recs)
     ctx.exhaustive = True
     ctx.rule = ("every (dt, k, fraction) of Grid.tla's menu, maturity handed over in 2-3 float spellings; BrownianStock on every case, the "
